@@ -197,6 +197,22 @@ func devCatalogue() []dev {
 		{"sig", "sig=both[ed25519,ecdsa256,pss256]", func(c, s *world.Cfg) {
 			c.SigSchemes, s.SigSchemes = sigs(tls.Ed25519, tls.ECDSAWithP256AndSHA256, tls.PSSWithSHA256), sigs(tls.PSSWithSHA256, tls.ECDSAWithP256AndSHA256, tls.Ed25519)
 		}},
+		// handshake-signature policy next to a (wider) certificate-signature policy: WithCertificateSignatureSchemes
+		// constrains the signatures inside the chain only (all test chains are signed ECDSA-P256-SHA256, which
+		// every list here contains); the handshake signature is still judged against WithSignatureSchemes
+		{"sig", "sig=c[ecdsa256]+certsig[ecdsa256,ecdsa384]/s[ecdsa384]", func(c, s *world.Cfg) {
+			c.SigSchemes, s.SigSchemes = sigs(tls.ECDSAWithP256AndSHA256), sigs(tls.ECDSAWithP384AndSHA384)
+			c.Extra = append(c.Extra, dtls.WithCertificateSignatureSchemes(tls.ECDSAWithP256AndSHA256, tls.ECDSAWithP384AndSHA384))
+		}},
+		{"sig", "sig=c[ecdsa384]/s[ecdsa256]+certsig[ecdsa256,ecdsa384]", func(c, s *world.Cfg) {
+			c.SigSchemes, s.SigSchemes = sigs(tls.ECDSAWithP384AndSHA384), sigs(tls.ECDSAWithP256AndSHA256)
+			s.Extra = append(s.Extra, dtls.WithCertificateSignatureSchemes(tls.ECDSAWithP256AndSHA256, tls.ECDSAWithP384AndSHA384))
+		}},
+		{"sig", "sig=both[ecdsa384,ecdsa256]+certsig-both[ecdsa256]", func(c, s *world.Cfg) {
+			c.SigSchemes, s.SigSchemes = sigs(tls.ECDSAWithP384AndSHA384, tls.ECDSAWithP256AndSHA256), sigs(tls.ECDSAWithP384AndSHA384, tls.ECDSAWithP256AndSHA256)
+			c.Extra = append(c.Extra, dtls.WithCertificateSignatureSchemes(tls.ECDSAWithP256AndSHA256))
+			s.Extra = append(s.Extra, dtls.WithCertificateSignatureSchemes(tls.ECDSAWithP256AndSHA256))
+		}},
 		// SRTP
 		{"srtp", "srtp=both[80]", func(c, s *world.Cfg) { c.SRTP, s.SRTP = srtp(p80), srtp(p80) }},
 		{"srtp", "srtp=c[80,GCM]/s[GCM,32]", func(c, s *world.Cfg) { c.SRTP, s.SRTP = srtp(p80, pGCM), srtp(pGCM, p32) }},
